@@ -360,6 +360,8 @@ def decide_equal(pdefs, a, b, guards=(), extra_atoms=('ri',), box=None):
     box = box or {'L1': range(1, 7), 'L2': range(1, 7), 'W': range(0, 8), 'ri': range(0, 6), 'j': range(0, 6)}
     extra_atoms = list(extra_atoms)
     need_parts = [f for f in PARTS_FIELDS if ('P_' + f) in (sym.atoms(a) | sym.atoms(b) | set().union(*[sym.atoms(g) for g in guards]) if guards else sym.atoms(a) | sym.atoms(b))]
+    import hashlib
+    first, nfail, hh = None, 0, hashlib.sha1()
     for l1, l2, w in product(box['L1'], box['L2'], box['W']):
         base = {'L1': l1, 'L2': l2, 'W': w}
         for f in need_parts:
@@ -371,7 +373,13 @@ def decide_equal(pdefs, a, b, guards=(), extra_atoms=('ri',), box=None):
                 continue
             va, vb = sym.evaluate(a, val), sym.evaluate(b, val)
             if va != vb:
-                return ('differ', {k: val[k] for k in ['L1', 'L2', 'W'] + extra_atoms}, va, vb)
+                if first is None:
+                    first = ({k: val[k] for k in ['L1', 'L2', 'W'] + extra_atoms}, va, vb)
+                nfail += 1
+                hh.update(repr((l1, l2, w, vals, va, vb)).encode())
+    if first is not None:
+        # the whole box is enumerated: the fingerprint of the failing set identifies *which* inputs fail
+        return ('differ', first[0], first[1], first[2], '%d:%s' % (nfail, hh.hexdigest()[:10]))
     n = 0
     try:
         for off in (False, True):
@@ -455,7 +463,7 @@ def rule_wps_writers(ctx, m, affinity=False, tier='quick'):
                     ctx.violation('R-BAND', R.file, fname, 'region %s column %s limit' % (R.name, nm),
                                   'in region %s the %s column limit of row ri is %s; the band of the documented scheme is %s: at %s they give %s vs %s'
                                   % (R.name, nm, sym.show(g), sym.show(kern.canon_lo('ri') if nm == 'lower' else kern.canon_hi('ri')), kern._fmtw(wv), r[2], r[3]),
-                                  R.main.line, facts={'witness': wv})
+                                  R.main.line, facts={'witness': wv, 'failset': r[4]})
                 else:
                     ctx.undecided('R-BAND', inst, r[1])
         _continuity(ctx, fname, regs, pdefs)
@@ -728,7 +736,7 @@ def _continuity(ctx, fname, regs, pdefs):
                 ctx.violation('R-MAP', R.file, fname, 'continuity %s -> %s' % (pn or 'top row', R.name),
                               'the first row of region %s reads its predecessors assuming the layout shifts by %d per row, but relative to the last row of %s it '
                               'shifts by %s (at %s): cells of the previous row are read one position off' % (R.name, R.Delta, pn or 'the top row', r[2], kern._fmtw(wv)),
-                              R.loop.line, facts={'witness': wv})
+                              R.loop.line, facts={'witness': wv, 'failset': r[4]})
             else:
                 ctx.undecided('R-MAP', inst, r[1])
         prev.append((R.name, R.lo, R.hi, R.delta))
@@ -933,7 +941,7 @@ def rule_wps_bounds(ctx, m, tier='quick'):
                 wv = r[1]
                 ctx.violation('R-MAP', R.file, fname, 'region %s position bound' % R.name,
                               'in region %s the last cell of row ri is written %s position(s) beyond the end of its row (at %s)' % (R.name, r[2], kern._fmtw(wv)),
-                              R.main.line, facts={'witness': wv})
+                              R.main.line, facts={'witness': wv, 'failset': r[4]})
             else:
                 ctx.undecided('R-MAP', inst, r[1])
             under = tmax(C(0), sub(C(0), R.w0))
@@ -1313,7 +1321,7 @@ def _report(ctx, r, rule, file, fname, construct, inst, what, line):
     if r[0] == 'equal':
         ctx.held(rule, inst, 'proved in %d regimes' % r[1])
     elif r[0] == 'differ':
-        ctx.violation(rule, file, fname, construct, '%s: at %s the two sides are %s vs %s' % (what, kern._fmtw(r[1]), r[2], r[3]), line, facts={'witness': r[1]})
+        ctx.violation(rule, file, fname, construct, '%s: at %s the two sides are %s vs %s' % (what, kern._fmtw(r[1]), r[2], r[3]), line, facts={'witness': r[1], 'failset': r[4]})
     else:
         ctx.undecided(rule, inst, r[1])
 
@@ -1466,7 +1474,7 @@ def rule_wps_exits(ctx, m):
                 ctx.violation('R-CLAMP', f.file, fname, 'psi_2e scan range',
                               'the last-row relaxation walks %s positions to the left of the last column without clamping to the band: at %s it leaves the band by %s '
                               'cell(s) and reads cells that belong to other columns/rows of the compact matrix (a wrong, smaller value is returned)' % (sym.show(n), kern._fmtw(r[1]), r[2]),
-                              lp.line, facts={'witness': r[1]})
+                              lp.line, facts={'witness': r[1], 'failset': r[4]})
             elif r[0] == 'unknown':
                 ctx.undecided('R-CLAMP', inst, r[1])
 
@@ -1489,6 +1497,6 @@ def rule_direct_identity(ctx, m):
             ctx.violation('R-MAP', m.pyx('dtw_cc').path, 'warping_paths', 'direct matrix with shifted region %s' % R.name,
                           'the wrappers write straight into the caller\'s (len1+1) x (len2+1) matrix whenever the compact width equals len2 + 1, but in region %s the '
                           'compact layout is shifted (position q holds column q%+d, not q-1): at %s the rows of that region come out shifted in the returned full matrix '
-                          '(the distance is right, the matrix and every path traced from it are not)' % (R.name, r[2], kern._fmtw(wv)), R.loop.line, facts={'witness': wv})
+                          '(the distance is right, the matrix and every path traced from it are not)' % (R.name, r[2], kern._fmtw(wv)), R.loop.line, facts={'witness': wv, 'failset': r[4]})
         else:
             ctx.undecided('R-MAP', inst, r[1])
